@@ -130,6 +130,27 @@ def step(L, op, res, hist):
     return viols, info
 
 
+def collision_job(j):
+    cfg, hist, target, seed = j
+    out = []
+    ncmd = 0
+    with labmod.Lab(cfg, seed=seed) as L:
+        done = []
+        for op in hist:
+            r = X.apply_op(L, op)
+            done.append(op)
+            if op[0] != "cmd":
+                continue
+            ncmd += 1
+            vs = X.c06(L, " ".join(map(str, op)))
+            if op == ("cmd", "check") and r.rc != 0:
+                vs.append(dict(kind="check-fails-after-sync", where="cmd check", out=r.text()[-300:]))
+            for v in vs:
+                v["kind"] = "hash-collision-" + v["kind"]
+                out.append((v, list(done)))
+    return dict(viols=out, ncmd=ncmd)
+
+
 def key_of(v):
     return "C06/%s/%s" % (v["kind"], v["where"].split(" ")[1] if v["where"].startswith("cmd ") else v["where"].split(" ")[0])
 
@@ -193,6 +214,32 @@ def run(ctx):
                         ctx.violation("C06/%s" % v["kind"], "%s in %s (per-file parity limit %d) after %s" % (v["kind"], cfg.short(), limit, v["where"]),
                                       dict(cfg=cfg.describe(), history=list(done), violation=v))
     ctx.set("parity_full_commands", nfull)
+    # ---- reduced hash size (hashsize 2): a block rewritten with bytes whose reduced hash EQUALS the hash recorded for the bytes it
+    # replaces, and new blocks whose reduced hash equals one of the two marker values (all-00 / all-ff): a hash that says nothing
+    # about identity may not stand in for computing the parity.  Collisions are found by enumeration (vp/explore.py "collide")
+    ncol = 0
+    jobs = []
+    for lv in (1, 2):
+        cfg = Config(levels=lv, ndisks=2, hashsize=2)
+        base = [("write", "d1", "anchor", 700, 0), ("write", "d2", "anchor", 700, 0), ("write", "d1", "x", 1024, 0),
+                ("write", "d2", "y", 3000, 0), ("cmd", "sync")]
+        for target, path in (("same", "x"), ("zero", "n"), ("invalid", "n")):
+            for cmds in ([("cmd", "sync")], [("cmd", "sync", "-h")], [("cmd", "sync", "-B", "1"), ("cmd", "sync")],
+                         [("cmd", "sync", "--test-kill-after-sync"), ("cmd", "sync")],
+                         [("cmd", "sync", "--test-kill-after-sync"), ("collide", "d1", path, target, 1), ("cmd", "sync")]):
+                jobs.append((cfg, base + [("collide", "d1", path, target, 0)] + cmds + [("cmd", "check")], target, ctx.seed))
+    from vp import par
+    for j, res in par.pmap(collision_job, jobs, deadline=ctx.deadline):
+        cfg, hist, target = j[:3]
+        ncol += res["ncmd"]
+        tot_trans += res["ncmd"]
+        ctx.nontrivial(("hash-collision", cfg.short(), target, repr(hist[6:])))
+        for v, done in res["viols"]:
+            ctx.violation("C06/%s" % v["kind"], "%s in %s (block with a colliding reduced hash: %s) after %s" % (v["kind"], cfg.short(), target, v["where"]),
+                          dict(cfg=cfg.describe(), history=done, violation=v))
+    if len(jobs) and ncol == 0:
+        ctx.cap("deadline before the hash-collision part")
+    ctx.set("hash_collision_commands", ncol)
     ctx.set("states", tot_states)
     ctx.set("transitions", tot_trans)
     ctx.set("evaluations", tot_trans)
